@@ -32,7 +32,7 @@ func runC15(c *core.Check) {
 	consts := map[string]string{"MaxK": "1", "BaseMode": "\"few\"", "MaxPos": "9"}
 	c15.Brief = c.Tier == "quick"
 	if c.Tier == "thorough" {
-		consts = map[string]string{"MaxK": "1", "BaseMode": "\"mid\"", "MaxPos": "11"}
+		consts = map[string]string{"MaxK": "1", "BaseMode": "\"mid\"", "MaxPos": "7"}
 	}
 	c.Extra["constants"] = consts
 	// the peeker protocol (Peeker.tla) is model-checked, every parse below is checked against it through the
@@ -57,13 +57,13 @@ func runC15(c *core.Check) {
 		sample = 4000
 	}
 	c15.StartPeekerRecording(sample, 5000)
-	streamTLC(c, core.TLCRun{Module: "MC_C15", Parts: 4, Consts: consts, Timeout: minutes(40), KeepVars: []string{"e", "dmg"}},
+	streamTLC(c, core.TLCRun{Module: "MC_C15", Parts: 4, Consts: consts, Timeout: minutes(60), KeepVars: []string{"e", "dmg"}},
 		func(st core.State) { c15.Handle(c, st) })
 	if c.Tier == "thorough" {
 		// pairs of damages (small alphabet, 4 positions) on the productions of one leaf
-		two := map[string]string{"MaxK": "2", "BaseMode": "\"tiny\"", "MaxPos": "3"}
+		two := map[string]string{"MaxK": "2", "BaseMode": "\"tiny\"", "MaxPos": "2"}
 		c.Extra["constants_pairs"] = two
-		streamTLC(c, core.TLCRun{Module: "MC_C15", Parts: 4, Consts: two, Timeout: minutes(40), KeepVars: []string{"e", "dmg"}},
+		streamTLC(c, core.TLCRun{Module: "MC_C15", Parts: 4, Consts: two, Timeout: minutes(60), KeepVars: []string{"e", "dmg"}},
 			func(st core.State) { c15.Handle(c, st) })
 	}
 	// every short byte-class string of the JSON recogniser (MC_C13) and of the lexer position machine
